@@ -3,6 +3,7 @@
 package contracts
 
 import (
+	"github.com/iancoleman/orderedmap"
 	"encoding/json"
 
 	appchainMgr "github.com/meshplus/bitxhub-core/appchain-mgr"
@@ -44,6 +45,10 @@ func zzTx(w *zzWorld, c interface{}, address, caller, method string, args []*pb.
 // reason, and once both proposals are closed the service's status no longer moves. A first vote by
 // an admin on the proposal being voted on is always accepted (no proposal gets stuck open), and after
 // every step the service's status is the one its two proposals imply.
+// The by-status index (what GetNotClosedProposals reads) lists every proposal under its current
+// status only. Finally an elector is frozen (an approved freeze concluded through the real
+// RoleManager.Manage, which re-counts the electorate of every proposal the index reports as open):
+// closed proposals are not touched by it either.
 // zz:also C16
 func ZZH_C15_closed_stays_closed() {
 	w, cs := zzFullWorld()
@@ -140,6 +145,39 @@ func ZZH_C15_closed_stays_closed() {
 		}
 		zz.Assert("C16.lock.object-status-follows-its-proposals", svcStatus() == want)
 		zz.Assert("C15.lock.lower-priority-paused-exactly-while-the-higher-is-open", (a.Status == PAUSED) == (b.Status == PROPOSED) || closed(a))
+		zzStatusIndexAgrees(w, ids)
+	}
+	// an elector leaves office
+	var before [2]*Proposal
+	for i, id := range ids {
+		before[i], _ = zzProposalOf(w, id)
+	}
+	who := zzAdminIDs[nAdmins-1]
+	w.putObj(zzRoleAddr, RoleKey(who), Role{ID: who, RoleType: GovernanceAdmin, Weight: 1, Status: governance.GovernanceFreezing})
+	_, err := zzTx(w, cs[zzRoleAddr], zzRoleAddr, zzGovAddr, "Manage",
+		[]*pb.Arg{pb.String(string(governance.EventFreeze)), pb.String(string(APPROVED)), pb.String(string(governance.GovernanceAvailable)), pb.String(who), pb.Bytes(nil)})
+	zz.Assert("C15.lock.electorate-change-concludes", err == nil)
+	for i, id := range ids {
+		after, _ := zzProposalOf(w, id)
+		if closed(before[i]) {
+			zz.Assert("C15.lock.closed-proposal-untouched-by-electorate-change", after.Status == before[i].Status && after.EndReason == before[i].EndReason &&
+				after.AvailableElectorateNum == before[i].AvailableElectorateNum && after.ApproveNum == before[i].ApproveNum && after.AgainstNum == before[i].AgainstNum)
+		} else {
+			zz.Assert("C15.lock.open-proposal-recounted", after.AvailableElectorateNum+1 == before[i].AvailableElectorateNum)
+		}
+	}
+}
+
+// zzStatusIndexAgrees: each proposal is listed in the by-status index of its own status and in no other.
+func zzStatusIndexAgrees(w *zzWorld, ids []string) {
+	for _, id := range ids {
+		p, _ := zzProposalOf(w, id)
+		for _, st := range []ProposalStatus{PROPOSED, PAUSED, APPROVED, REJECTED} {
+			idx := orderedmap.New()
+			w.getObj(zzGovAddr, ProposalStatusKey(string(st)), idx)
+			_, listed := idx.Get(id)
+			zz.Assert("C15.index.listed-under-its-status-only", listed == (p.Status == st))
+		}
 	}
 }
 
